@@ -83,7 +83,38 @@ pub fn run(ctx: &Ctx) -> i32 {
             // sparse stacks so that single-visible-layer frames are common
             cfg.cel_density = 2;
         }
+        if i % 40 == 7 {
+            // more than 256 frames (or layers): index truncation slips
+            cfg.max_w = 3;
+            cfg.max_h = 3;
+            cfg.max_cel = 2;
+            cfg.tilemaps = false;
+            if i % 80 == 7 {
+                cfg.max_frames = 700;
+                cfg.max_layers = 2;
+            } else {
+                cfg.max_frames = 2;
+                cfg.max_layers = 300;
+                cfg.groups = false;
+            }
+            cfg.cel_density = 3;
+        }
         let (mut sp, palprog) = gen::gen_sprite(&mut rng, &cfg);
+        if i % 80 == 7 {
+            while sp.durations.len() < 300 {
+                sp.durations.push(10);
+            }
+            // cels beyond frame 255 with distinguishable content
+            let nl = sp.layers.len() as u16;
+            for f in [256u16, 257, 299] {
+                for l in 0..nl {
+                    if sp.layers[l as usize].kind == LayerKind::Image && !sp.cels.contains_key(&(f, l)) {
+                        let px = gen::gen_pixels(&mut rng, &sp, 1);
+                        sp.cels.insert((f, l), CelM { x: (f % 3) as i16, y: 0, opacity: 255, content: CelContentM::Image { w: 1, h: 1, pixels: px }, ud: None });
+                    }
+                }
+            }
+        }
         // frames x layers never square
         if sp.durations.len() == sp.layers.len() {
             sp.durations.push(77);
